@@ -173,11 +173,23 @@ def run(ctx):
             ctx.sample({"create": cr.create_line(cfg), "env": env, "time": plan_time(tr)[0], "stages": [s["kind"] for s in tr.plan]})
     ctx.cov["worst_margins"] = worst
     # ---- long streams: clock words against the big-integer model
-    njobs = 24 if ctx.quick else 200
+    njobs = 34 if ctx.quick else 200
     jobs = []
+    # the carried words by structure, on both engine precisions, in every run: a time-domain decimating dft stage (remM), a poly-phase
+    # stage behind / ahead of a dft stage (at modulo L), the F-domain stages, a half-band chain, both clocks on an irrational ratio
+    # (remM moves only when the block length is not a multiple of M: 6:1 at VHQ, 3:2 with SOXR_DOUBLE_PRECISION or with small dft sizes)
+    fixed_long = [({"ir": "6", "or": "1", "recipe": 6}, {}), ({"ir": "3", "or": "2", "recipe": 4, "qflags": 16}, {"SOXR_USE_SIMD": "0"}),
+                  ({"ir": "3", "or": "2", "recipe": 6, "min": 9, "large": 11}, {}), ({"ir": "6", "or": "1", "recipe": 4}, {}),
+                  ({"ir": "3", "or": "2", "recipe": 6}, {}), ({"ir": "3", "or": "2", "recipe": 4}, {"SOXR_USE_SIMD": "0"}),
+                  ({"ir": "5", "or": "4", "recipe": 6}, {"SOXR_USE_SIMD": "0"}), ({"ir": "5", "or": "3", "recipe": 3}, {}),
+                  ({"ir": "48000", "or": "44100", "recipe": 6}, {}), ({"ir": "44100", "or": "48000", "recipe": 4}, {}),
+                  ({"ir": "7", "or": "1", "recipe": 4}, {}), ({"ir": "1", "or": "3", "recipe": 6}, {}),
+                  ({"ir": "1.41421356", "or": "1", "recipe": 6, "qflags": 8}, {}), ({"ir": "1", "or": "1.0001", "recipe": 4}, {})]
     for i in range(njobs):
         cfg, env = cr.gen_config(rng, allow_nonlinear=False, max_up=8, max_down=64)
         cfg.pop("min", None); cfg.pop("large", None); cfg.pop("kb", None)
+        if i < len(fixed_long):
+            cfg, env = dict(fixed_long[i][0]), dict(fixed_long[i][1])
         base = rng.choice([10 ** 6, 3 * 10 ** 6]) if ctx.quick else rng.choice([10 ** 6, 10 ** 7, 3 * 10 ** 7, 10 ** 8])
         N = min(base, int(base * min(1.0, 4 / max(cr.io_ratio(cfg), 1e-9) if cr.io_ratio(cfg) < 1 else 1.0)))
         jobs.append({"cfg": cfg, "env": env, "N": max(N, 1000), "seed": rng.next() & 0xffffffff, "idx": i, "style": "long"})
